@@ -135,3 +135,193 @@ Qed.
 (* an actor whose stream has no chunk makes the translation panic *)
 Example C20_example_panic : translate [mkActor 1 10 12 []] = None.
 Proof. vm_compute. reflexivity. Qed.
+
+(* ---- oracle = theorem: the executable oracles of Model/GennyOk.v, which the
+   correspondence check evaluates on the implementation's observations, accept the
+   model's own observations (model_out / model_chunk_sizes / model_time, exactly what
+   the driver ocaml/c20_run.ml recomputes) for EVERY input that satisfies the
+   hypotheses of theorems 1-7 (proofs in Proofs/OracleSoundC20.v) ---- *)
+From FV.Model Require Import GennyOk.
+From FV.Proofs Require OracleSoundC20.
+
+(* 8. the translation: c20_ok_count (reflected theorem 1, also for an empty span and
+      for no actors), c20_ok_shape (theorem 2), c20_ok_own (theorems 3-5 restated on the
+      flattened stream: the model's cursor run is one of the readings the oracle
+      follows) and their conjunction c20_ok_out.  keys_ok is needed by c20_ok_own only
+      (as for theorem 4), stamps_in_range by c20_ok_count only (as for theorem 1) *)
+Theorem C20_oracle_out_sound : forall actors out,
+  has_chunks actors -> keys_ok actors ->
+  stamps_in_range (workload_start actors) (workload_end actors) ->
+  model_out actors = Some out ->
+  c20_ok_count actors (workload_start actors) (workload_end actors) out = true /\
+  c20_ok_shape actors out = true /\ c20_ok_own actors out = true /\ c20_ok_out actors out = true.
+Proof. exact OracleSoundC20.c20_oracle_out_sound. Qed.
+Print Assumptions C20_oracle_out_sound.
+
+(* 9. the model's observation exists whenever every stream has a chunk *)
+Theorem C20_model_out_defined : forall actors,
+  has_chunks actors -> exists out, model_out actors = Some out.
+Proof. exact OracleSoundC20.c20_model_out_defined. Qed.
+Print Assumptions C20_model_out_defined.
+
+(* 10. c20_ok_chunks is the reflected form of theorem 6 *)
+Theorem C20_oracle_chunks_sound : forall out,
+  c20_ok_chunks (model_chunk_sizes out) (Z.of_nat (length out)) = true.
+Proof. exact OracleSoundC20.c20_oracle_chunks_sound. Qed.
+Print Assumptions C20_oracle_chunks_sound.
+
+(* 11. c20_ok_time is the reflected form of theorem 7 on its stated domain
+       (time_domain: first timestamp after the epoch, timestamps non-decreasing,
+       no empty chunk); inside the domain the model's GetGennyTime returns *)
+Theorem C20_oracle_time_sound : forall a,
+  (time_domain a = true -> exists st en, model_time a = Some (st, en)) /\
+  (forall st en, model_time a = Some (st, en) -> c20_ok_time a st en = true).
+Proof. exact OracleSoundC20.c20_oracle_time_sound. Qed.
+Print Assumptions C20_oracle_time_sound.
+
+(* ------------------------------------------------------------------------------
+   END TO END (C20 o streaming collector o reader).  Model/Genny.v carries
+   TranslateGenny's output as [out_sample]s and mirrors NewStreamingCollector(300)
+   only by count ([output_chunks], theorem 6).  Here the output goes, as BSON
+   documents, through the streaming collector of Model/Collector.v (the model of
+   C01/C07/C08, kind KStream, chunk size 300, wrapped better-collector, zlib as a
+   parameter) and through the FTDC reader of Model/Codec.v.
+   Vocabulary (Proofs/ComposeGenny.v; every name below is written qualified so that
+   the unqualified names of this file stay Genny's):
+     CodecProofs.emits deflate n w groups   (theorem 12, as in the proof of C01) the writer
+                            saw only complete FTDC writes and its outer documents are the
+                            chunk documents (type 1, reference document + compressed delta
+                            rows: CodecChunk.is_chunk) of the groups, one each, in order
+     genny_doc name_of o    the document {cedar: {start: Date(fst o), <name_of actor>:
+                            {n, ops, size, errors, dur, total, workers, failed: int64
+                            as present}, ...}} that t2.go builds (keys checked against
+                            their spelling by ComposeGenny.genny_keys_spelled)
+     name_of : Z -> bytes   the actor names (ids in the model), a parameter; nothing is
+                            assumed of it except [names_ok]: the names of the actors at
+                            hand are BSON keys (no NUL byte) - not even distinctness
+     reads_back name_of inflate outer out :=
+        ReadChunks over the emitted outer documents returns chunks cs without an error,
+        cs and output_chunks out correspond one to one: each chunk has as many samples
+        as its group and its StructuredIterator yields exactly the documents of the
+        group; and ReadStructuredMetrics yields map genny_doc out without an error
+        (all leaves are metrics: nothing is stripped)
+   Hypotheses, each needed:
+     perf_streams actors   every sample of every actor carries exactly the eight selected
+                           keys in createZeroedMetrics' order with int64 values (streams
+                           written by the event collectors, cf. C14): then the zero
+                           sample and every later selection have the same keys, i.e.
+                           all output documents share ONE schema; with a schema change
+                           the better-collector refuses the Add (log.Fatal in t2.go)
+     names_fit actors      32 + sum (|name| + 122) < 2^31: the output document is below
+                           BSON's 2 GiB limit (the exact encoded size)
+     dates_in_range        -9223372036 <= start, end <= 9223372037: 1000 * second is a
+                           date inside the nanosecond range of time.Time for every second
+                           of the span (outside it a date metric does not survive the
+                           codec, see C01's date_ok); implies stamps_in_range
+     one clock reading per Add (nows); zlib: inflate (deflate p) = Some p *)
+From FV.Model Require Bytes Bson Metrics Codec Collector Wf RoundTrip.
+From FV.Proofs Require ComposeGenny.
+
+Section C20_end_to_end.
+Variable name_of : Z -> Bytes.bytes.
+Variable deflate : Bytes.bytes -> Bytes.bytes.
+Variable inflate : Bytes.bytes -> option Bytes.bytes.
+Hypothesis inflate_deflate : forall p, inflate (deflate p) = Some p.
+
+(* 12. the streaming collector of Model/Collector.v cuts ANY same-schema sequence of
+       well-formed documents exactly as Model/Genny.v's stream_collect does: every
+       Add and the final flush succeed and the chunk documents written are those of
+       the groups stream_collect n [] docs, one each, in order *)
+Theorem C20_streaming_collector_groups : forall n sk docs nows,
+  1 <= n -> docs <> [] -> length nows = length docs ->
+  Forall (fun t => Bytes.in_i64 t = true) nows ->
+  Forall (fun d => Metrics.skeleton_doc d = sk /\ Bson.doc_ok d = true) docs ->
+  exists c w,
+    RoundTrip.emit deflate Collector.KStream n docs nows =
+      ((c, w), map (fun _ => Collector.BAdd Collector.ROk) docs ++ [Collector.BFlush true]) /\
+    CodecProofs.emits deflate n w (stream_collect (Z.to_nat n) [] docs).
+Proof. exact (ComposeGenny.stream_emit_groups deflate). Qed.
+
+(* 13. any output sequence whose samples have one key structure [sh] throughout *)
+Theorem C20_output_roundtrip : forall out sh nows,
+  out <> [] -> Forall (fun o => ComposeGenny.shape o = sh) out ->
+  Forall (ComposeGenny.out_ok name_of) out ->
+  (N.of_nat (ComposeGenny.doc_bytes name_of sh) < 2 ^ 31)%N ->
+  length nows = length out -> Forall (fun t => Bytes.in_i64 t = true) nows ->
+  let res := RoundTrip.emit deflate Collector.KStream 300 (map (ComposeGenny.genny_doc name_of) out) nows in
+  snd res = map (fun _ => Collector.BAdd Collector.ROk) out ++ [Collector.BFlush true] /\
+  ComposeGenny.reads_back name_of inflate (RoundTrip.emitted (snd (fst res))) out.
+Proof. exact (ComposeGenny.genny_stream_roundtrip name_of deflate inflate inflate_deflate). Qed.
+
+(* 14. TranslateGenny end to end: the translation is defined, has one sample per
+       second, every collector.Add and FlushCollector succeed, and reading the
+       written stream back gives exactly the translated samples, in chunks of exactly
+       the sizes of output_chunks (theorem 6: 300, ..., 300, rest) *)
+Theorem C20_end_to_end : forall actors start end_,
+  actors <> [] -> has_chunks actors ->
+  ComposeGenny.perf_streams actors -> ComposeGenny.names_ok name_of actors -> ComposeGenny.names_fit name_of actors ->
+  start < end_ -> ComposeGenny.dates_in_range start end_ ->
+  exists out, translate_span actors start end_ = Some out /\
+    length out = Z.to_nat (end_ - start) /\
+    forall nows, length nows = length out -> Forall (fun t => Bytes.in_i64 t = true) nows ->
+      let res := RoundTrip.emit deflate Collector.KStream 300 (map (ComposeGenny.genny_doc name_of) out) nows in
+      snd res = map (fun _ => Collector.BAdd Collector.ROk) out ++ [Collector.BFlush true] /\
+      ComposeGenny.reads_back name_of inflate (RoundTrip.emitted (snd (fst res))) out.
+Proof. exact (ComposeGenny.genny_end_to_end name_of deflate inflate inflate_deflate). Qed.
+
+(* the same for TranslateGenny's own bounds *)
+Theorem C20_end_to_end_translate : forall actors,
+  actors <> [] -> has_chunks actors ->
+  ComposeGenny.perf_streams actors -> ComposeGenny.names_ok name_of actors -> ComposeGenny.names_fit name_of actors ->
+  workload_start actors < workload_end actors ->
+  ComposeGenny.dates_in_range (workload_start actors) (workload_end actors) ->
+  exists out, translate actors = Some out /\
+    length out = Z.to_nat (workload_end actors - workload_start actors) /\
+    forall nows, length nows = length out -> Forall (fun t => Bytes.in_i64 t = true) nows ->
+      let res := RoundTrip.emit deflate Collector.KStream 300 (map (ComposeGenny.genny_doc name_of) out) nows in
+      snd res = map (fun _ => Collector.BAdd Collector.ROk) out ++ [Collector.BFlush true] /\
+      ComposeGenny.reads_back name_of inflate (RoundTrip.emitted (snd (fst res))) out.
+Proof.
+  exact (fun actors => ComposeGenny.genny_end_to_end name_of deflate inflate inflate_deflate
+                         actors (workload_start actors) (workload_end actors)).
+Qed.
+
+End C20_end_to_end.
+
+Print Assumptions C20_streaming_collector_groups.
+Print Assumptions C20_output_roundtrip.
+Print Assumptions C20_end_to_end.
+Print Assumptions C20_end_to_end_translate.
+
+(* non-vacuity: the two actors of C20_example carry all eight keys in every sample;
+   with one-letter names "a", "b" the hypotheses of C20_end_to_end hold on [10, 15) *)
+Example C20_end_to_end_example :
+  let name_of := (fun i : Z => [N.of_nat (Z.to_nat (96 + i))]) in
+  [ex_a; ex_b] <> [] /\ has_chunks [ex_a; ex_b] /\ ComposeGenny.perf_streams [ex_a; ex_b] /\
+  ComposeGenny.names_ok name_of [ex_a; ex_b] /\ ComposeGenny.names_fit name_of [ex_a; ex_b] /\
+  workload_start [ex_a; ex_b] < workload_end [ex_a; ex_b] /\
+  ComposeGenny.dates_in_range (workload_start [ex_a; ex_b]) (workload_end [ex_a; ex_b]) /\
+  ComposeGenny.genny_doc name_of (10000, [(1, sub 1); (2, sub 1)]) =
+    [ ([99; 101; 100; 97; 114]%N,
+       Bson.VDoc [ ([115; 116; 97; 114; 116]%N, Bson.VDateTime 10000);
+                   ([97]%N, Bson.VDoc [ ([110]%N, Bson.VInt64 1); ([111; 112; 115]%N, Bson.VInt64 2);
+                                        ([115; 105; 122; 101]%N, Bson.VInt64 3);
+                                        ([101; 114; 114; 111; 114; 115]%N, Bson.VInt64 0);
+                                        ([100; 117; 114]%N, Bson.VInt64 5); ([116; 111; 116; 97; 108]%N, Bson.VInt64 6);
+                                        ([119; 111; 114; 107; 101; 114; 115]%N, Bson.VInt64 4);
+                                        ([102; 97; 105; 108; 101; 100]%N, Bson.VInt64 0) ]);
+                   ([98]%N, Bson.VDoc [ ([110]%N, Bson.VInt64 1); ([111; 112; 115]%N, Bson.VInt64 2);
+                                        ([115; 105; 122; 101]%N, Bson.VInt64 3);
+                                        ([101; 114; 114; 111; 114; 115]%N, Bson.VInt64 0);
+                                        ([100; 117; 114]%N, Bson.VInt64 5); ([116; 111; 116; 97; 108]%N, Bson.VInt64 6);
+                                        ([119; 111; 114; 107; 101; 114; 115]%N, Bson.VInt64 4);
+                                        ([102; 97; 105; 108; 101; 100]%N, Bson.VInt64 0) ]) ]) ].
+Proof.
+  cbv zeta. split; [discriminate|]. split; [repeat constructor; discriminate|].
+  split.
+  { apply Forall_cons; [|apply Forall_cons; [|apply Forall_nil]]; intros ch s Hc Hs; simpl in Hc;
+      repeat (destruct Hc as [Hc|Hc]; [subst ch; simpl in Hs;
+        repeat (destruct Hs as [Hs|Hs]; [subst s; split; [reflexivity|repeat constructor]|]); destruct Hs|]); destruct Hc. }
+  split; [repeat constructor|]. split; [vm_compute; reflexivity|]. split; [vm_compute; reflexivity|].
+  split; [split; vm_compute; congruence|]. vm_compute. reflexivity.
+Qed.
